@@ -191,7 +191,10 @@ def xlsx_bytes(rng, wb):
     tcount = 0
     for i, sh in enumerate(wb["sheets"]):
         wbx.append('<sheet name="%s" sheetId="%d" r:id="rId%d"/>' % (esc(sh["name"]), i + 1, i + 1))
-        rels.append('<Relationship Id="rId%d" Type="%s/worksheet" Target="worksheets/sheet%d.xml"/>' % (i + 1, NS_R, i + 1))
+        # an Excel 4.0 macro sheet is a sheet with cells like any other; only its relationship type
+        # differs (every read call must treat it alike: range, ref, at, worksheets())
+        rtype = "http://schemas.microsoft.com/office/2006/relationships/xlMacrosheet" if (i > 0 and rng.random() < 0.2) else NS_R + "/worksheet"
+        rels.append('<Relationship Id="rId%d" Type="%s" Target="worksheets/sheet%d.xml"/>' % (i + 1, rtype, i + 1))
         ct.append('<Override PartName="/xl/worksheets/sheet%d.xml" ContentType="application/vnd.openxmlformats-officedocument.spreadsheetml.worksheet+xml"/>' % (i + 1))
         parts.append(("xl/worksheets/sheet%d.xml" % (i + 1), xlsx_sheet_xml(rng, sh, sst, choice)))
         if sh["tables"]:
